@@ -498,7 +498,7 @@ theorem setOid_replace {c : Cfg} (g : CfgGood c) {s : HC} (hc : Coherent c s) (p
     cases hmk : makeNode c (s1.nd n).type (canon c.sep (tcomps c p)) (some o) s1 with
     | mk t' r' =>
       rw [hmk] at hspec hout
-      obtain ⟨hct, hsucc, _, hkeep⟩ := hspec
+      obtain ⟨hct, hsucc, _, hkeep, _, _⟩ := hspec
       simp only at hct hsucc hkeep
       cases r' with
       | error e => simp only at hout; subst hout; simp at hok
